@@ -44,6 +44,12 @@ def run(ck, ctx):
                      "stamp its peers already hold)")
     ck.nd("that the resulting stamp supersedes on every replica additionally needs C07 (merge algebra)")
     ck.nd("per-field stamps inside hash values larger than the outer stamp (value-level)")
+    ck.rule("R08.9", "the newest stamp wins wherever values meet: every merge function a delivered or recovered value passes through is a "
+                     "certified lattice join that selects by the Lamport stamp only (the C07 certificate R07.0-R07.2, shared; the "
+                     "associativity hazard R07.3 stays with C07/C06) - a merge that prefers one side for another reason (vector-clock "
+                     "dominance, a causal fast path, a type preference) lets an older value beat an acknowledged newer write")
+    from . import c07 as _c07
+    _c07.certify(ck, rid=lambda r: "R08.9", floor_id="R08.9", skip_rules=("R07.3",))
     for cfg in ctx.configs:
         prog = ctx.prog(cfg)
         ck.configs.append(cfg)
@@ -92,6 +98,24 @@ def _r081(ck, prog, cfg):
                 ck.check(ok, "R08.1", key, why + ": a node's clock could repeat or go backwards", fn.where(st["ln"]),
                          detail="monotone store")
     ck.floor("R08.1" + _tag(cfg), n, 2)
+    # ... and the functions that take `&mut LamportClock` to advance it do so on *every* path (an `update` that returns early for
+    # some stamps - own replica id, an "echo" - leaves the clock behind a value the node has just observed)
+    adv = 0
+    for fn in prog.lib_fns():
+        if fn.d.get("impl_self") != CLOCK or fn.kind != "method" or fn.d.get("implements"):
+            continue
+        if not fn.locals or len(fn.locals) < 2 or str(fn.locals[1]) != "&mut " + CLOCK:
+            continue
+        stores = [b for b, i, st in fn.stmts() if _is_time_place(st["lhs"])]
+        if not stores:
+            continue
+        adv += 1
+        ok = all(any(fn.dominates(sb, e) for sb in stores) for e in fn.exits())
+        ck.check(ok, "R08.1", "%s:advances-on-every-path%s" % (fn.id, _tag(cfg)),
+                 "%s can return without storing a new time: the clock is not advanced past every stamp it is shown (after a restart the "
+                 "recovered values a node wrote itself carry its own replica id - skipping those leaves the clock at 0 and the next write "
+                 "is stamped below them)" % fn.short, fn.where(), detail="the time store dominates every return")
+    ck.floor("R08.1:advancers" + _tag(cfg), adv, 2)
     # whole-value stores into node-clock fields
     clock_fields = _node_clock_fields(prog)
     ck.floor("R08.1-clockfields" + _tag(cfg), len(clock_fields), 1)
